@@ -66,6 +66,10 @@ def program(op, a):
     if op == "keyInto":
         v, k, n = a
         return "pub fn f(k: Key<%s, %s>) -> [u8; %s] { k.into() }" % (TY[v], KIND[k], n)
+    if op == "hashKey":
+        # feeding a key to a caller-supplied hasher hands the caller the key bytes without `expose_key()`
+        v, k = a
+        return "pub fn f<H: std::hash::Hasher>(k: &Key<%s, %s>, h: &mut H) { std::hash::Hash::hash(k, h) }" % (TY[v], KIND[k])
     if op == "sealedMethod":
         v, name = a
         return "pub fn f(t: &SealedToken<%s, Local, Raw, Raw>) { let _ = t.%s(); }" % (TY[v], name)
@@ -125,6 +129,8 @@ def catalogue(thorough=False):
         for k in ("local", "secret", "pkesecret", "public"):
             cat.append(("fieldKey", (v, k)))
         cat.append(("ctorKey", (v,)))
+        for k in ("local", "secret", "pkesecret"):
+            cat.append(("hashKey", (v, k)))
         for k, n in (("local", "32"), ("secret", "64"), ("secret", "48"), ("pkesecret", "32")):
             cat.append(("keyInto", (v, k, n)))
         for name in ("footer", "get_footer", "footer_ref", "as_footer", "into_footer", "raw_footer", "encoded_footer", "footer_bytes",
@@ -140,7 +146,7 @@ def catalogue(thorough=False):
     return out
 
 
-ORACLE_ONLY = {"fieldKey", "ctorKey", "keyInto", "sealedMethod", "sealedMethodPub"}
+ORACLE_ONLY = {"fieldKey", "ctorKey", "keyInto", "hashKey", "sealedMethod", "sealedMethodPub"}
 
 
 def op_line(op, a):
